@@ -147,7 +147,7 @@ PROPS["C10"] = {
             "existing name incl. case variant, non-empty storage, root, escaping path, invalid name, multi-step create_storage_all / "
             "remove_storage_all, out-of-range seek with a dirty buffer), long-lived dirty handles mixed in; for every call the model "
             "predicts as refused and that is refused: zero write events on the backing store, bytes identical, handle len/position "
-            "unchanged, and all later dumps equal a model that never saw the call; a call refused with NotFound / AlreadyExists / InvalidInput although the model expected success must leave the bytes unchanged too; eight shards first run a wide scenario (storage with 1023-1500 children in a chain: five predicted refusals, then remove_stream of the deepest and a mid-chain entry and remove_storage_all, each judged if refused); one shard grows a version 3 stream to 2 GiB - 1, 2 GiB, 2 GiB + 1000 on a sparse store (a refusal there must leave the store unchanged). One quiescent point in 25 runs a stale-handle episode: two handles opened together on a scratch stream, a third resizes it and goes away, one of the two makes out-of-range seeks (store untouched, len() unmoved after each), then both are asked the same questions and must answer alike. Refusal steps also come as "refused, obstacle repaired, same call again" sequences. non-trivial = >= 3 refusals checked; distinct = FNV-64 of steps",
+            "unchanged, and all later dumps equal a model that never saw the call; a call refused with NotFound / AlreadyExists / InvalidInput although the model expected success must leave the bytes unchanged too; eight shards first run a wide scenario (storage with 1023-1500 children in a chain: five predicted refusals, then remove_stream of the deepest and a mid-chain entry and remove_storage_all, each judged if refused); one shard grows a version 3 stream to 2 GiB - 1, 2 GiB, 2 GiB + 1000 on a sparse store (a refusal there must leave the store unchanged). One quiescent point in 25 runs a stale-handle episode: two handles opened together on a scratch stream, a third resizes it and goes away, one of the two makes out-of-range seeks (store untouched, len() unmoved after each), then both are asked the same questions and must answer alike. Refusal steps also come as refused / obstacle repaired / same call again sequences. non-trivial = >= 3 refusals checked; distinct = FNV-64 of steps",
     "assumptions": COMMON_ASSUMPTIONS,
     "checked_share": 0.6,
     "quick": {"budget_s": 18},
